@@ -81,6 +81,9 @@ def gen(xkind, dup, nested, reexp, origin_all, local_def, consumer, cycle, zope=
         elif dup == "member" and xkind == "class":
             # a member defined twice inside the (single, possibly moved) definition: the older one is superseded but stays registered
             impl += "    def m1(self):\n        '''m again'''\n"
+            # a property with a setter (documented as a SIBLING named 'prop.setter'), then the property's name defined again
+            impl += ("    @property\n    def prop(self):\n        '''prop'''\n    @prop.setter\n    def prop(self, v):\n        pass\n"
+                     "    @property\n    def prop(self):\n        '''prop again'''\n")
     if accel:
         # the "optional accelerator" idiom: the defining module also binds the name by an import that fails at run time
         impl += "try:\n    from _speedups import X\nexcept ImportError:\n    pass\n"
